@@ -43,6 +43,17 @@ SOFTWARE, EVEN IF ADVISED OF THE POSSIBILITY OF SUCH DAMAGE.
 
 #include "crypto.h"
 
+#ifdef YARA_VERIF
+#include <yara/verif.h>
+size_t yr_verif_arena_initial_size = 0;
+int yr_verif_arena_exact_growth = 0;
+uint64_t (*yr_verif_clock)(void* stopwatch) = NULL;
+__thread uint64_t yr_verif_bytes_scanned = 0;
+__thread uint64_t yr_verif_vm_instructions = 0;
+__thread uint64_t yr_verif_clock_queries = 0;
+void (*yr_verif_point)(int point, void* scanner) = NULL;
+#endif
+
 #if defined(_WIN32) || defined(__CYGWIN__)
 #if !defined(_MSC_VER) || (defined(_MSC_VER) && (_MSC_VER < 1900))
 #define snprintf _snprintf
